@@ -4,7 +4,7 @@ use sonic_rs::{Deserializer, Value};
 
 use crate::core::{Case, Check, Ctx, GenParams, Tier};
 use crate::gen::doc::{self, DocOpts};
-use crate::mon::common::{cmp_doc, exact, NumMode};
+use crate::mon::common::{parse_then_discard, cmp_doc, exact, NumMode};
 use crate::refmodel::recog::{self, K, R};
 
 pub struct C03;
@@ -72,6 +72,9 @@ pub fn check_doc(ctx: &mut Ctx, b: &[u8], heavy: bool) {
     check_one(ctx, "whole:from_str", sonic_rs::from_str::<Value>(s), &d.root, b, mode);
     check_one(ctx, "whole:de.deserialize", Deserializer::from_slice(&ex).deserialize::<Value>(), &d.root, b, if cfg!(feature = "arbitrary_precision") { NumMode::Default } else { mode });
     check_one(ctx, "whole:use_rawnumber", Deserializer::from_slice(&ex).use_rawnumber().deserialize::<Value>(), &d.root, b, NumMode::Raw);
+    // an owned value does not depend on the input buffer after the call
+    check_one(ctx, "whole:from_slice:input-discarded", parse_then_discard(b, |c| sonic_rs::from_slice::<Value>(c)), &d.root, b, mode);
+    check_one(ctx, "whole:use_rawnumber:input-discarded", parse_then_discard(b, |c| Deserializer::from_slice(c).use_rawnumber().deserialize::<Value>()), &d.root, b, NumMode::Raw);
     check_one(ctx, "whole:utf8_lossy", Deserializer::from_slice(&ex).utf8_lossy().deserialize::<Value>(), &d.root, b, NumMode::Default);
     if !heavy {
         // embedded in a typed structure: copy parse into the deserializer's shared arena
@@ -86,7 +89,8 @@ pub fn check_doc(ctx: &mut Ctx, b: &[u8], heavy: bool) {
         };
         let we = exact(&w);
         ctx.ops(1);
-        match sonic_rs::from_slice::<Emb>(&we) {
+        let _ = &we;
+        match parse_then_discard(&w, |c| sonic_rs::from_slice::<Emb>(c)) {
             Ok(e) => {
                 if let Err(m) = cmp_doc(&e.v, sub, &w, mode) {
                     ctx.fail("dom-differs:embedded-struct", format!("struct field Value: {}", m));
@@ -95,7 +99,7 @@ pub fn check_doc(ctx: &mut Ctx, b: &[u8], heavy: bool) {
             Err(e) => ctx.fail("reject-valid:embedded-struct", format!("struct{{a,v}} rejected: {}", crate::mon::common::err_brief(&e))),
         }
         ctx.ops(1);
-        match Deserializer::from_slice(&we).use_rawnumber().deserialize::<Emb>() {
+        match parse_then_discard(&w, |c| Deserializer::from_slice(c).use_rawnumber().deserialize::<Emb>()) {
             Ok(e) => {
                 if let Err(m) = cmp_doc(&e.v, sub, &w, NumMode::Raw) {
                     ctx.fail("dom-differs:embedded-struct-rawnumber", format!("struct field Value (rawnumber): {}", m));
@@ -115,21 +119,27 @@ pub fn check_doc(ctx: &mut Ctx, b: &[u8], heavy: bool) {
             K::Arr(xs) => xs,
             _ => unreachable!(),
         };
-        let we = exact(&w);
-        ctx.ops(1);
-        match sonic_rs::from_slice::<Vec<Value>>(&we) {
-            Ok(vs) => {
-                if vs.len() != 3 {
-                    ctx.fail("dom-differs:vec-len", format!("Vec<Value> has {} items", vs.len()));
-                } else {
-                    for (i, (v, r)) in vs.iter().zip(subs.iter()).enumerate() {
-                        if let Err(m) = cmp_doc(v, r, &w, mode) {
-                            ctx.fail("dom-differs:embedded-vec", format!("Vec<Value>[{}]: {}", i, m));
+        for (raw, m, name) in [(false, mode, "embedded-vec"), (true, NumMode::Raw, "embedded-vec-rawnumber")] {
+            ctx.ops(1);
+            let got = parse_then_discard(&w, |c| {
+                let de = Deserializer::from_slice(c);
+                let mut de = if raw { de.use_rawnumber() } else { de };
+                de.deserialize::<Vec<Value>>()
+            });
+            match got {
+                Ok(vs) => {
+                    if vs.len() != 3 {
+                        ctx.fail("dom-differs:vec-len", format!("Vec<Value> has {} items", vs.len()));
+                    } else {
+                        for (i, (v, r)) in vs.iter().zip(subs.iter()).enumerate() {
+                            if let Err(msg) = cmp_doc(v, r, &w, m) {
+                                ctx.fail(&format!("dom-differs:{}", name), format!("Vec<Value>[{}]: {}", i, msg));
+                            }
                         }
                     }
                 }
+                Err(e) => ctx.fail(&format!("reject-valid:{}", name), format!("Vec<Value> rejected: {}", crate::mon::common::err_brief(&e))),
             }
-            Err(e) => ctx.fail("reject-valid:embedded-vec", format!("Vec<Value> rejected: {}", crate::mon::common::err_brief(&e))),
         }
         // later documents of a stream
         let mut w = Vec::with_capacity(b.len() * 3 + 16);
@@ -140,12 +150,15 @@ pub fn check_doc(ctx: &mut Ctx, b: &[u8], heavy: bool) {
             w.extend_from_slice(b);
             w.extend_from_slice(b"\n");
         }
-        let we = exact(&w);
         let modes: [(bool, NumMode, &str); 2] = [(false, NumMode::Default, "stream"), (true, NumMode::Raw, "stream-rawnumber")];
         for (raw, m, name) in modes {
-            let de = Deserializer::from_slice(&we);
-            let de = if raw { de.use_rawnumber() } else { de };
-            let mut st = de.into_stream::<Value>();
+            // the documents are collected, then the stream is dropped and the input discarded
+            let docs: Vec<Result<Value, sonic_rs::Error>> = parse_then_discard(&w, |c| {
+                let de = Deserializer::from_slice(c);
+                let de = if raw { de.use_rawnumber() } else { de };
+                de.into_stream::<Value>().collect()
+            });
+            let mut st = docs.into_iter();
             let first = st.next();
             ctx.ops(1);
             if !matches!(first, Some(Ok(_))) {
